@@ -4583,7 +4583,7 @@ class Qube(object):
         if shape == ():
             if self._rank_ == 0:
                 if isinstance(self._values_, np.ndarray):
-                    new_values = self._values_.ravel()[0]
+                    new_values = self._values_.reshape(())[()]
                 else:
                     new_values = self._values_
             else:
